@@ -204,6 +204,7 @@ fn cmd_run(prop: &str, tier: Tier) -> i32 {
             "library_calls": agg.lib_calls,
             "faults_fired": agg.faults,
             "probes": agg.probes,
+            "maxima": agg.maxima,
             "parts": per_part,
             "components_real": spec.components_real,
             "components_stub": spec.components_stub,
